@@ -477,7 +477,7 @@ def r2_coupling_helpers(ctx, rid):
                                       f"{'target' if role_here == 'source' else 'source'} axis of the pair space (pre/post swapped)", facts,
                           label=f"use {helper}: {norm(st)}")
         # the post-synaptic variable is read from the target node
-        if role_here == "target":
+        if helper == want == "broadcast_post":
             hole = fstring_holes(n)[0]
             regs = [s for s in cfg.stmts() if isinstance(s, ast.Assign) and len(s.targets) == 1 and isinstance(s.targets[0], ast.Subscript)
                     and isinstance(s.targets[0].value, ast.Name) and s.targets[0].value.id == "source_vars"
@@ -715,13 +715,15 @@ def _mentions_name(e, name, ctx, f, depth=0):
 
 
 def _is_intersection(e, ctx, f, depth=0):
-    if isinstance(e, ast.Name) and depth < 4:
-        v = single_def_value(ctx, f, e)
-        return v is not None and _is_intersection(v, ctx, f, depth + 1)
-    if isinstance(e, ast.BinOp) and isinstance(e.op, ast.BitAnd):
-        return True
-    if isinstance(e, ast.Call) and call_name(e) in ("intersection", "any"):
-        return True
+    for n in ast.walk(e):
+        if isinstance(n, ast.BinOp) and isinstance(n.op, ast.BitAnd):
+            return True
+        if isinstance(n, ast.Call) and call_name(n) in ("intersection", "any"):
+            return True
+        if isinstance(n, ast.Name) and isinstance(n.ctx, ast.Load) and depth < 4:
+            v = single_def_value(ctx, f, n)
+            if v is not None and _is_intersection(v, ctx, f, depth + 1):
+                return True
     return False
 
 
@@ -840,8 +842,8 @@ def r4_collision_and_forwarding(ctx, rid):
 
 
 RULES = [
-    ("C16-R1", r1_index_roles, 25),
+    ("C16-R1", r1_index_roles, 30),
     ("C16-R2", r2_coupling_helpers, 14),
-    ("C16-R3", r3_population_params, 7),
+    ("C16-R3", r3_population_params, 6),
     ("C16-R4", r4_collision_and_forwarding, 10),
 ]
